@@ -195,7 +195,11 @@ HCIcnbit_decode(compinfo_t *info, int32 length, uint8 *buf)
     orig_length = length;                        /* save this for later */
     while (length > 0) {                         /* decode until we have all the bytes */
         if (nbit_info->buf_pos >= buf_size) {    /* re-fill buffer */
-            rbuf = (uint8 *)nbit_info->buffer;   /* get a ptr to the buffer */
+            /* expand only the values this call still needs, so that nothing expanded stays behind for a later call
+               (which sizes its buffer from its own length) */
+            buf_size  = MIN(NBIT_BUF_SIZE, length);
+            buf_items = buf_size / nbit_info->nt_size;
+            rbuf      = (uint8 *)nbit_info->buffer; /* get a ptr to the buffer */
 
             /* get initial copy of the mask */
             HDmemfill(rbuf, nbit_info->mask_buf, (uint32)nbit_info->nt_size, (uint32)buf_items);
@@ -259,7 +263,8 @@ HCIcnbit_decode(compinfo_t *info, int32 length, uint8 *buf)
         nbit_info->buf_pos += copy_length;
     } /* end for */
 
-    nbit_info->offset += orig_length; /* incr. abs. offset into the file */
+    nbit_info->buf_pos = NBIT_BUF_SIZE; /* everything expanded has been delivered */
+    nbit_info->offset += orig_length;   /* incr. abs. offset into the file */
     return SUCCEED;
 } /* end HCIcnbit_decode() */
 
